@@ -16,7 +16,7 @@ NAMES = [None, None, 'worker', 'pool-1', 'ignored-a', 'ignored-b', 'Dummy-x', 'b
 IGNORE = [[], [], ['ignored-'], ['ignored-a$', 'pool'], ['.*'], ['Dummy-'], ['Thread-\\d+'], ['xyz'],
           ['orker', '-1$'], ['thread', '\\d'], ['-b', 'ummy'], ['WORKER', 'ignored$']]   # documented: *match* mode
 
-RE_THREAD = re.compile(r'<Thread\((.*?), started (?:daemon )?(\d+)\)>')
+RE_THREAD = re.compile(r'<_?(?:Dummy|Main)?Thread\((.*?), started (?:daemon )?(\d+)\)>')
 RE_DUMMY = re.compile(r'DummyThread (\d+), started, daemon')
 
 
@@ -41,6 +41,7 @@ def cases(draw):
                  'name': draw(st.sampled_from(NAMES)), 'hold': draw(st.sampled_from([True, True, False]))}
             if a['api'] == '_thread':
                 a['name'] = None
+                a['register'] = draw(st.booleans())
             ph = draw(st.sampled_from(['setUp', 'body', 'body', 'tearDown']))
             if t['k'] == 'skip_body' and ph == 'body':
                 pass
@@ -96,7 +97,8 @@ def oracle(spec, opts, run):
             continue
         if released_in.get(tag) == th['test']:
             continue
-        name = th['name'] if th['api'] == 'threading' else 'Dummy-%s' % th['ident']
+        # (a raw thread known to ``threading`` carries the name threading gave it, else the runner calls it Dummy-<ident>)
+        name = th['name'] if (th['api'] == 'threading' or th['name']) else 'Dummy-%s' % th['ident']
         if any(re.match(p, name) for p in pats):
             labels.append('ignored-leak')
             continue
